@@ -310,3 +310,90 @@ func VHKeyedPhases() {
 	}
 	vCover("keyed phases done")
 }
+
+// VHKeyedClearWaiter: key a is held and a second goroutine waits for it; meanwhile an idle key
+// is cleared and a third key is acquired. Neither the ClearKey of the idle key nor the
+// acquisition of the third key may be delayed by the goroutine that waits for a.
+func VHKeyedClearWaiter() {
+	keys := c09keys()
+	idle := vInt("idle")
+	vAssume(idle != keys[0])
+	vAssume(idle != keys[1])
+	rw := vChoose("rw", 2) == 1
+	var km KeyedMutex[int]
+	var kr KeyedRWMutex[int]
+	if vChoose("warmIdle", 2) == 1 {
+		if rw {
+			kr.LockKey(idle)
+			kr.UnlockKey(idle)
+		} else {
+			km.LockKey(idle)
+			km.UnlockKey(idle)
+		}
+	}
+	// the main goroutine holds a throughout the first round
+	if rw {
+		kr.LockKey(keys[0])
+	} else {
+		km.LockKey(keys[0])
+	}
+	waiterIn := false
+	vGo(func() { // thread 1: waits for a
+		if rw {
+			if vChoose("waitRead", 2) == 1 {
+				kr.RLockKey(keys[0])
+				waiterIn = true
+				kr.RUnlockKey(keys[0])
+			} else {
+				kr.LockKey(keys[0])
+				waiterIn = true
+				kr.UnlockKey(keys[0])
+			}
+		} else {
+			km.LockKey(keys[0])
+			waiterIn = true
+			km.UnlockKey(keys[0])
+		}
+	})
+	vGo(func() { // thread 2
+		if rw {
+			kr.ClearKey(idle)
+		} else {
+			km.ClearKey(idle)
+		}
+	})
+	got := false
+	try := vChoose("try", 2) == 1
+	vGo(func() { // thread 3: another key
+		if rw {
+			if try {
+				got = kr.TryRLockKey(keys[1])
+			} else {
+				kr.LockKey(keys[1])
+				got = true
+			}
+		} else {
+			if try {
+				got = km.TryLockKey(keys[1])
+			} else {
+				km.LockKey(keys[1])
+				got = true
+			}
+		}
+	})
+	vWait()
+	vAssert(!waiterIn, "nobody enters a held key")
+	vAssert(vThreadDone(1), "ClearKey of an idle key is not delayed by a goroutine waiting for another key")
+	vAssert(vThreadDone(2), "an acquisition of a different key is not delayed by a goroutine waiting for a held key")
+	if vThreadDone(2) {
+		vAssert(got, "an acquisition of a free, different key succeeds while another key is held and awaited")
+	}
+	if rw {
+		kr.UnlockKey(keys[0])
+	} else {
+		km.UnlockKey(keys[0])
+	}
+	vAssert(vWait(), "the waiter gets the key once it is released")
+	vAssert(waiterIn, "the waiter entered after the release")
+	vCover("keyed clear with a waiter done")
+}
